@@ -103,7 +103,7 @@ def gen_cb(d: D, prof: dict, depth: int) -> Optional[dict]:
             cb["yield"] = d.i(1, 2)
     if d.p(prof["p_cb_raise"]):
         cb["raise"] = True
-        cb["fault_kind"] = d.i(0, 4)
+        cb["fault_kind"] = d.i(0, 5)
     r = d.i(0, 99)
     if r < 12:
         cb["partial"] = True
@@ -153,7 +153,7 @@ def gen_worker(d: D, prof: dict, depth: int, n_hint: int) -> dict:
         ws["bad_return_at"] = d.i(0, n_hint - 1)
     ws["fname"] = d.pick(prof["fnames"])
     if "ends" in ws or "callfault" in ws:
-        ws["fault_kind"] = d.i(0, 4)
+        ws["fault_kind"] = d.i(0, 5)
     if d.p(0.08):
         ws["partial"] = True
     elif d.p(0.15):
